@@ -37,37 +37,39 @@ class CallGraph:
         self.unresolved = defaultdict(list)
         self.indirect = defaultdict(list)
         self.trait_impls = defaultdict(list)  # (trait path, method) -> [body paths]
+        self.trait_all = defaultdict(list)    # trait path -> [body paths of all local impl methods]
+        self.impl_methods = defaultdict(list)  # impl def -> [body paths]
+        self.adt_ext_trait_methods = defaultdict(list)  # local adt path -> [body paths] (impls of external traits)
+        top = {m.split("::")[0] for m in program.doc.get("mods", []) if m}
+        self.local_tops = top
         self._index_traits()
+        self.adt_paths = sorted(program.adts, key=len, reverse=True)
         for path, b in program.bodies.items():
             self._scan(b)
 
     def _index_traits(self):
+        self.trait_krate = {}
         for path, b in self.p.bodies.items():
             im = b.impl
             if not im or not im.get("trait"):
                 continue
             method = path.rsplit("::", 1)[-1]
-            tr = im["trait"]
-            if im.get("provided"):
-                tpath = tr
-            else:
-                # "<X as some::Trait<Args>>" -> some::Trait
-                s = tr
-                if " as " in s:
-                    s = s.split(" as ", 1)[1]
-                    s = s[:-1] if s.endswith(">") else s
-                # strip generic args
-                depth = 0
-                out = []
-                for ch in s:
-                    if ch == "<":
-                        depth += 1
-                    if depth == 0:
-                        out.append(ch)
-                    if ch == ">":
-                        depth -= 1
-                tpath = "".join(out)
+            tpath = im.get("trait_path")
+            if tpath is None:
+                continue
+            self.trait_krate[tpath] = im.get("trait_krate")
             self.trait_impls[(tpath, method)].append(path)
+            self.trait_all[tpath].append(path)
+            if not im.get("provided"):
+                self.impl_methods[im["impl_def"] + "|" + im["trait"]].append(path)
+                if not self.is_local_trait(tpath):
+                    st = im.get("self_ty") or ""
+                    for a in self.p.adts:
+                        if a in st:
+                            self.adt_ext_trait_methods[a].append(path)
+
+    def is_local_trait(self, tpath):
+        return self.trait_krate.get(tpath) == self.p.crate
 
     def _add(self, caller, callee, span):
         self.edges[caller].add(callee)
@@ -106,8 +108,10 @@ class CallGraph:
             if res is None and c.get("krate") != crate:
                 # external trait method on a generic receiver: external, receiver unknown
                 self.ext[b.path].append((c["def"], c, t))
+                self._link_ext(b, c, t)
                 continue
             self.ext[b.path].append((callee_name(c), c, t))
+            self._link_ext(b, c, t)
         # closures constructed and fn items referenced as values
         for bb, i, st in b.iter_stmts():
             if st["k"] == "assign" and st["rv"]["k"] == "aggregate":
@@ -135,6 +139,38 @@ class CallGraph:
             for info in list(c.get("arg_info") or []) + list(t.get("arg_tys") or []):
                 self._link_tyinfo(b, info, t["span"])
 
+    def _link_ext(self, b, c, t):
+        """An external callee may call back into local code: (a) every local impl method of the
+        external trait the callee belongs to; (b) every method of impls of external traits for a
+        local ADT that appears in the callee's generic arguments (e.g. `sum::<MeanVari>` calls
+        `<MeanVari as Sum>::sum`).  Sound over-approximation."""
+        tr = c.get("trait")
+        if tr and not self.is_local_trait(tr):
+            for tg in self.trait_all.get(tr, []):
+                self._add(b.path, tg, t["span"])
+        wa = (c.get("resolved_with_args") or "") + " " + (c.get("with_args") or "")
+        name = c.get("resolved") or c.get("def") or ""
+        ck = c.get("resolved_krate") or c.get("krate") or ""
+        fmt_family = "fmt::" in name or "ToString" in name or "::error::Error" in name
+        serde_family = ck.startswith("serde") or (c.get("trait_krate") or "").startswith("serde")
+        if "::" in wa:
+            for a in self.adt_paths:
+                if a in wa:
+                    for tg in self.adt_ext_trait_methods.get(a, []):
+                        im2 = self.p.bodies[tg].impl or {}
+                        tp2 = im2.get("trait_path") or ""
+                        tk2 = im2.get("trait_krate") or ""
+                        # formatting / serde impls are only invoked by the formatting / serde
+                        # machinery
+                        if "::fmt::" in tp2 and not fmt_family:
+                            continue
+                        if tk2.startswith("serde") and not serde_family:
+                            continue
+                        if tk2.startswith("serde") and "::ser::" in tp2 and "ser::" not in name \
+                                and "Serialize" not in name:
+                            continue  # Serialize impls are not invoked by deserialisation
+                        self._add(b.path, tg, t["span"])
+
     def _link_tyinfo(self, b, info, span):
         while isinstance(info, dict):
             k = info.get("k")
@@ -155,6 +191,15 @@ class CallGraph:
             if n in seen:
                 continue
             seen[n] = par
+            bn = self.p.bodies[n]
+            im = bn.impl
+            if im and im.get("trait") and not im.get("provided"):
+                tp = im["trait"]
+                # all methods of a reached impl of an *external* trait are callable by that
+                # trait's external users (serde, std iterators)
+                for sib in self.impl_methods.get(im["impl_def"] + "|" + tp, []):
+                    if sib not in seen:
+                        st.append((sib, n))
             for m in sorted(self.edges.get(n, ())):
                 if m not in seen:
                     st.append((m, n))
